@@ -11,6 +11,7 @@ CLAIMED = {
  "C01": ("proof", "exact spec-function contracts on the planned-count / percent-partition arithmetic (1% slack proved for all int32 replicas and plans), every CalculateBatchContext (exposure of the written knob vs. planned count), every UpgradeBatch (at most one write, only toward more updated pods, body encodes the desired value), currentBatch moves only below batchPartition (moveToNextBatch, progressBatches, signalRecalculate)"),
  "C07": ("other", "partial: the per-call clauses only (the update target written by CalculateBatchContext suffices for IsBatchReady's own criterion - refuted for CloneSet in a recorded region, proved outside it); liveness under fair scheduling and provider fixed points are not decided"),
  "C11": ("proof", "IsBatchReady postcondition taken verbatim from the statement; progressBatches / executeBatchReleasePlan transition postconditions over the ghost call log (Ready only after EnsureBatchPodsReadyAndLabeled returned nil in the same call, fall-back otherwise, Completed only after Finalize returned nil); control planes' Ensure/Finalize/UpgradeBatch; canary-style stable Finalize waits when the policy says so"),
+ "C18": ("proof", "every finalizer removal is guarded: Rollout (Terminating condition reason Completed, which reconcileRolloutTerminating sets only after doFinalising returned (true,nil)), BatchRelease (phase Completed), TrafficRouting (typestate fact established only by FinalisingTrafficRouting returning (true,nil)); all paths including error returns; at most one finalizer write per call, own finalizer only"),
  "C17": ("proof", "NewRSReplicasLimit / NewRSNewReplicas / ResolveFenceposts / MaxSurge / MaxUnavailable against spec functions (never beyond the partition, never beyond replicas+maxSurge), replica sums by loop invariants, cleanupUnhealthyReplicas and scaleDownOldReplicaSetsForRollingUpdate with ghost accumulators over every scale call (budget, only unavailable pods, min-available), reconcileNewReplicaSet / reconcileOldReplicaSets / scaleUpOldReplicaSets"),
 }
 NA_FIXED = {
